@@ -13,6 +13,7 @@ import (
 	"regexp"
 	"strings"
 	"time"
+	"verifharness/zoo2"
 
 	"github.com/canonical/sqlair"
 )
@@ -123,6 +124,26 @@ type bindObs struct {
 }
 
 // implBind runs Prepare + Query + Run on a fresh fake database.
+// bothSliceForms: the positions of an unnamed []T and an unnamed []*T of the same struct type T among
+// the arguments, or -1.
+func bothSliceForms(args []any) (int, int) {
+	for i, a := range args {
+		if a == nil {
+			continue
+		}
+		ta := reflect.TypeOf(a)
+		if ta.Kind() != reflect.Slice || ta.Name() != "" || ta.Elem().Kind() != reflect.Struct {
+			continue
+		}
+		for j, b := range args {
+			if b != nil && reflect.TypeOf(b) == reflect.SliceOf(reflect.PointerTo(ta.Elem())) {
+				return i, j
+			}
+		}
+	}
+	return -1, -1
+}
+
 func strHash(s string) uint64 {
 	h := uint64(1469598103934665603)
 	for i := 0; i < len(s); i++ {
@@ -160,10 +181,23 @@ func implBind(c bindCase) (o bindObs) {
 	// omitempty members, other slice lengths) or with arguments that contribute nothing, and in some
 	// of those the observed run is on a Statement prepared afterwards.
 	pos := 0
-	if h := strHash(c.query); h%3 == 0 && len(c.args) > 0 {
+	bothA, _ := bothSliceForms(c.args)
+	if h := strHash(c.query); (h%3 == 0 || bothA >= 0) && len(c.args) > 0 {
 		wr := newRng(h)
 		var other []any
+		if a, b := bothSliceForms(c.args); a >= 0 {
+			// both []T and []*T are given: the Statement has first been run with the []*T alone
+			for i, x := range c.args {
+				if i != a {
+					other = append(other, x)
+				}
+			}
+			_ = b
+		}
 		for i, a := range c.args {
+			if other != nil && len(other) == len(c.args)-1 {
+				break
+			}
 			switch (h / 3) % 4 {
 			case 0:
 				other = append(other, reshape(wr, a, int(h%7)+i))
@@ -359,8 +393,21 @@ func cmdBind(args []string) int {
 	iw := bufio.NewWriter(impl)
 	st := bindStats{Results: map[string]int{}, Classes: map[string]int{}}
 	seen := map[string]bool{}
+	var follow *bindCase
 	for i := 0; i < *n; i++ {
-		c := g.next()
+		var c bindCase
+		if follow != nil {
+			c, follow = *follow, nil
+		} else {
+			c = g.next()
+			// now and then the same query is prepared again with one more sample (a duplicate, a pointer, nil,
+			// a same-named type): whatever the first Prepare left behind, the second is judged on its own samples
+			if len(c.samples) > 0 && g.r.chance(1, 6) {
+				f := c
+				f.samples = append(append([]any{}, c.samples...), g.r.pick2(c.samples[0], &Person{}, nil, zoo2.Person{}, 5))
+				follow = &f
+			}
+		}
 		env := newTypeEnv()
 		ss := dumpSamples(env, c.samples)
 		as := dumpArgs(env, c.args)
